@@ -1,15 +1,22 @@
 /-
   C17 — property theorems.  Statements of the property over ALL schedules (any interleaving
   of the control script and any number of player threads at the yield points), any chunk
-  counts, any control script; non-vacuity examples; audit.  Helper lemmas: `ALV.Lemmas.C17*`.
+  counts, any control script; safety AND liveness (every run is finite, `close` returns, what
+  holds afterwards); non-vacuity examples; audit.  Helper lemmas: `ALV.Lemmas.C17*`.
 -/
 import ALV.Lemmas.C17Close
 import ALV.Lemmas.C17Chunks
 import ALV.Lemmas.C17Locks
+import ALV.Lemmas.C17Shutdown
+import ALV.Lemmas.C17Paused
+import ALV.Lemmas.C17Wait
 import ALV.Common.Audit
 
 namespace ALV.Props.C17
 open ALV.C17
+
+/-- schedules are written as lists of numbers: 0 = control script, n+1 = player n -/
+def mkSched (l : List Nat) : List Tid := l.map fun n => if n = 0 then Tid.main else Tid.player (n - 1)
 
 /-- **C17.1 delivered_prefix** — whatever the schedule and the control history, what a device
 stream has received is a prefix of `chunks(audio)` (in order, nothing duplicated, nothing
@@ -169,38 +176,314 @@ theorem manager_lock_never_blocks {cfg : Cfg} {script : List Cmd} {s : State}
     (hr : Reach cfg script s) (t : Tid) (ht : s.mlock = some t) : enabled cfg s t = true :=
   mlock_holder_enabled' hr t ht
 
-/-! ### liveness of `close` — PENDING (carried by the tie on every explored schedule)
+/-! ### liveness of `close`
 
-Proved so far, for ALL schedules: no backend/assertion failure can abort `close`
-(`close_assertion_holds`, `backend_protocol`), no deadlock consists of locks only (`lock_order`,
-`manager_lock_never_blocks`), and the code as it is DOES deadlock through `go.wait()`
-(`deadlock_pause_close`, `deadlock_pause_resume_close` below).  Not yet proved in Lean: -/
+Every run is finite (`rank_decreases`, `steps_bounded`: a ranking function strictly decreases at
+every step of every thread, so no fairness assumption is needed and every schedule, continued as
+long as some thread is enabled, ends in a terminal state: `maximal_run_exists`).  Every terminal
+state has the control script finished, or joining a player blocked in `go.wait()` on a cleared
+event (`terminal_states`).  From these: `close` returns — with the repaired `stop()` and
+`wait=False` whatever was paused (`close_returns_fixed`), for both variants and both `wait`
+values when the script never pauses (`close_returns_no_pause`), and with `wait=True` when no
+player is paused at the time `close` is called (`close_returns_wait`) — and afterwards everything
+is shut and nobody is alive (`shutdown_fixed`, `shutdown_no_pause`, `shutdown_wait`). -/
 
--- PENDING
 /-- script without `pause` calls -/
 def NoPause (script : List Cmd) : Prop := ∀ i, Cmd.ctl .pause i ∉ script
 
--- PENDING: every maximal run of a script without `pause` ends with the script completed (every
--- `close` returned) and all players finished — both variants of `stop()`.
-def close_returns_no_pause : Prop :=
-  ∀ (cfg : Cfg) (script : List Cmd) (s : State), NoPause script → Reach cfg script s →
-    terminal cfg s = true → allDone s = true
+/-- **C17.8 rank_decreases** — in every reachable state, every step of every thread strictly
+decreases the rank `phi` (rank of the script's program counter + weight of the calls still to be
+issued + Σ players (8 · chunks still to write + rank of the player's program counter)): both
+variants of `stop()`, wait true/false, any number of players, any chunk counts, any script. -/
+theorem rank_decreases {cfg : Cfg} {script : List Cmd} {s s' : State} {t : Tid}
+    (hr : Reach cfg script s) (h : step cfg s t = some s') : phi cfg s' < phi cfg s :=
+  phi_step hr h
 
--- PENDING: with the proposed fix and `wait=False`, `close` returns whatever was paused (scripts
--- without `join` calls; a `join` of a paused player blocks by the script's own doing).
-def close_returns_fixed : Prop :=
-  ∀ (cfg : Cfg) (script : List Cmd) (s : State), cfg.fixed = true → cfg.wait = false →
-    (∀ i, Cmd.join i ∉ script) → Reach cfg script s → terminal cfg s = true → s.mpc = .done
+/-- **C17.8b steps_bounded** — every run is finite: a schedule that was executed to its end is
+no longer than `stepBound cfg script = 1 + Σ calls (play a: 27 + 8·|chunks a|, pause/play/stop: 4,
+join: 2, close: 12)`.  Weak fairness is therefore implied: a thread that stays enabled is
+eventually the only one that can be chosen. -/
+theorem steps_bounded (cfg : Cfg) (script : List Cmd) : ∃ B : Nat, ∀ (sched : List Tid),
+    (runSched cfg (init script) sched).2 = [] → sched.length ≤ B :=
+  ⟨stepBound cfg script, fun sched h => by
+    have := runSched_phi sched Reach.init h
+    unfold stepBound; omega⟩
 
--- PENDING: every run is finite (so a maximal run exists and weak fairness is implied): the number
--- of steps from the initial state is bounded by a function of the script.
-def steps_bounded : Prop :=
-  ∀ (cfg : Cfg) (script : List Cmd), ∃ B : Nat, ∀ (sched : List Tid),
-    (runSched cfg (init script) sched).2 = [] → sched.length ≤ B
+/-- the bound in closed form -/
+theorem steps_bounded_explicit (cfg : Cfg) (script : List Cmd) (sched : List Tid)
+    (h : (runSched cfg (init script) sched).2 = []) : sched.length ≤ 1 + wsum cfg script := by
+  have := runSched_phi sched (Reach.init (cfg := cfg) (script := script)) h
+  have e := stepBound_eq cfg script
+  unfold stepBound at e; omega
+
+/-- non-vacuity: a schedule of 30 steps that is executed to its end (the bound is 52) -/
+example : let sched := mkSched ([0,0,0,0,0,0,0,0,0,0,0,0,1,1,1,1,0,0,0] ++ [1,1,1,1,1,1,0,0,0,0,0])
+    (runSched ⟨false, true, 2⟩ (init [.play [101], .ctl .pause 0, .close]) sched).2 = [] ∧
+    sched.length = 30 ∧ stepBound ⟨false, true, 2⟩ [.play [101], .ctl .pause 0, .close] = 52 := by
+  decide
+
+/-- **C17.8c maximal_run_exists** — every executed schedule can be continued to a terminal state
+(nobody enabled), and every such continuation stays within the bound. -/
+theorem maximal_run_exists (cfg : Cfg) (script : List Cmd) (sched : List Tid)
+    (h : (runSched cfg (init script) sched).2 = []) :
+    ∃ ext, (runSched cfg (init script) (sched ++ ext)).2 = [] ∧
+      terminal cfg (runSched cfg (init script) (sched ++ ext)).1 = true ∧
+      (sched ++ ext).length ≤ stepBound cfg script := by
+  have hr : Reach cfg script (runSched cfg (init script) sched).1 := reach_runSched sched Reach.init
+  obtain ⟨ext, h1, h2⟩ := exists_maximal _ _ hr (Nat.le_refl _)
+  have happ := runSched_append cfg sched (init script) ext h
+  refine ⟨ext, by rw [happ]; exact h1, by rw [happ]; exact h2, ?_⟩
+  have := runSched_phi (sched ++ ext) (Reach.init (cfg := cfg) (script := script)) (by rw [happ]; exact h1)
+  unfold stepBound; omega
+
+/-- **C17.9 terminal_states** — the shape of EVERY terminal state (both variants of `stop()`,
+wait true/false, any script): the control script has finished, or it is joining — by a `join`
+call of its own or by `thread.join()` inside `close` — a player that is blocked in `go.wait()` on
+a cleared event.  There is no other deadlock. -/
+theorem terminal_states {cfg : Cfg} {script : List Cmd} {s : State} (hr : Reach cfg script s)
+    (ht : terminal cfg s = true) :
+    s.mpc = .done ∨ ∃ i p, (s.mpc = .jJoin i ∨ s.mpc = .kJoin i) ∧ s.players[i]? = some p ∧
+      p.pc = .goWait ∧ p.go = false :=
+  terminal_shape hr ht
+
+/-- non-vacuity: the second alternative is reachable with the repaired `stop()` too — by the
+script's own `join` of a player it has paused (`th.pause(); th.join()` blocks on the real code
+as well: scheduler run `play ; pause ; join ; close` ends in `0:th0.join:0,1:go0.wait:0`) -/
+example : let s := (runSched ⟨false, true, 2⟩ (init [.play [101], .ctl .pause 0, .join 0, .close])
+      (mkSched [0,0,0,0,0,1,0,0,0,1,1,1,0])).1
+    (terminal ⟨false, true, 2⟩ s = true ∧ s.mpc = .jJoin 0 ∧ pcAt s 0 = some .goWait) := by decide
+
+/-- **C17.10 close_never_blocks_fixed** — with the repaired `stop()` and `wait=False` no run
+ends inside `close`, whatever was paused, for EVERY script: a run can only get stuck in a `join`
+call of the script itself, on a player the script has paused. -/
+theorem close_never_blocks_fixed {cfg : Cfg} {script : List Cmd} {s : State}
+    (hf : cfg.fixed = true) (hw : cfg.wait = false) (hr : Reach cfg script s)
+    (ht : terminal cfg s = true) :
+    s.mpc = .done ∨ ∃ i p, s.mpc = .jJoin i ∧ Cmd.join i ∈ script ∧ s.players[i]? = some p ∧
+      p.pc = .goWait ∧ p.go = false := by
+  rcases terminal_shape hr ht with h | ⟨i, p, hm, hp, hpc, hgo⟩
+  · exact Or.inl h
+  · rcases hm with hm | hm
+    · exact Or.inr ⟨i, p, hm, (scr_reach hr).cur _ (by rw [hm]; rfl), hp, hpc, hgo⟩
+    · obtain ⟨q, hq, hq2⟩ := gf_reach hr hf hw i (Or.inr hm)
+      rw [hp] at hq; cases hq; rw [hgo] at hq2; cases hq2
+
+/-- **C17.10b close_returns_fixed** — with the repaired `stop()` and `wait=False`, every maximal
+run of a script without `join` calls ends with the script completed: every `close` returned,
+whatever was paused.  (A `join` of a paused player blocks by the script's own doing — on the
+real code too: `th.pause(); th.join()`.) -/
+theorem close_returns_fixed (cfg : Cfg) (script : List Cmd) (s : State) (hf : cfg.fixed = true)
+    (hw : cfg.wait = false) (hj : ∀ i, Cmd.join i ∉ script) (hr : Reach cfg script s)
+    (ht : terminal cfg s = true) : s.mpc = .done := by
+  rcases close_never_blocks_fixed hf hw hr ht with h | ⟨i, _, _, hmem, _⟩
+  · exact h
+  · exact absurd hmem (hj i)
+
+/-- non-vacuity: `play ; pause ; close` under the schedule on which the code as it was deadlocks -/
+example : (runSched ⟨false, true, 2⟩ (init [.play [101], .ctl .pause 0, .close])
+    (mkSched ([0,0,0,0,0,0,0,0,0,0,0,0,1,1,1,1,0,0,0] ++ [1,1,1,1,1,1,0,0,0,0,0]))).1.mpc = .done :=
+  close_returns_fixed _ _ _ rfl rfl (by simp) (reach_runSched _ Reach.init) (by decide)
+
+/-- **C17.11 close_returns_no_pause** — for scripts without `pause` calls (both variants of
+`stop()`, wait true/false, `join` calls allowed) every maximal run ends with the script completed
+(every `close` and every `join` returned) and all players finished. -/
+theorem close_returns_no_pause (cfg : Cfg) (script : List Cmd) (s : State) (hn : NoPause script)
+    (hr : Reach cfg script s) (ht : terminal cfg s = true) : allDone s = true := by
+  have np := np_reach hn hr
+  have hd : s.mpc = .done := by
+    rcases terminal_shape hr ht with h | ⟨i, p, _, hp, hpc, _⟩
+    · exact h
+    · exact absurd hpc (np i p hp).noWait
+  exact allDone_of_done hr ht hd (fun k p hp hpc => absurd hpc (np k p hp).noWait)
+
+/-- non-vacuity: two players, `stop` of one, `join` of the other, `wait=True`, code as it was -/
+example : allDone (runSched ⟨true, false, 1⟩
+      (init [.play [101, 102], .play [201], .ctl .stop 0, .join 1, .close])
+      (mkSched [0,0,0,0,0,1,0,0,0,1,1,1,0,0,1,2,2,2,0,0,0,2,2,2,0,1,1,2,2,1,0,0,1,1,0,0,0,0])).1 = true :=
+  close_returns_no_pause _ _ _ (by intro i h; simp at h) (reach_runSched _ Reach.init) (by decide)
+
+/-- **C17.12a close_never_blocks_wait** — repaired `stop()`, `wait` true or false, EVERY script in
+which no player still in its loop is paused (has its `go` event cleared) whenever `close` is
+called: no run ends inside `close`; a run can only get stuck in a `join` call of the script
+itself, on a player the script has paused. -/
+theorem close_never_blocks_wait {cfg : Cfg} {script : List Cmd} {s : State}
+    (hf : cfg.fixed = true) (hu : UnpausedAtClose cfg script) (hr : Reach cfg script s)
+    (ht : terminal cfg s = true) :
+    s.mpc = .done ∨ ∃ i p, s.mpc = .jJoin i ∧ Cmd.join i ∈ script ∧ s.players[i]? = some p ∧
+      p.pc = .goWait ∧ p.go = false := by
+  rcases terminal_shape hr ht with h | ⟨i, p, hm, hp, hpc, hgo⟩
+  · exact Or.inl h
+  · rcases hm with hm | hm
+    · exact Or.inr ⟨i, p, hm, (scr_reach hr).cur _ (by rw [hm]; rfl), hp, hpc, hgo⟩
+    · rcases gc_reach hf hu hr (by rw [hm]; rfl) i p hp with h | h
+      · rw [hgo] at h; cases h
+      · rw [hpc] at h; cases h
+
+/-- **C17.12 close_returns_wait** — the `wait=True` clause, repaired `stop()` (it holds for
+`wait=False` too): if no player that is still in its loop is paused (has its `go` event cleared)
+whenever the script calls `close` — nothing can resume it afterwards, the control script being
+inside `close` — then every maximal run of a script without `join` calls ends with the script
+completed.  Without the hypothesis `close(wait=True)` blocks for ever: `deadlock_pause_close_wait`
+(known finding D10b). -/
+theorem close_returns_wait (cfg : Cfg) (script : List Cmd) (s : State) (hf : cfg.fixed = true)
+    (hu : UnpausedAtClose cfg script) (hj : ∀ i, Cmd.join i ∉ script) (hr : Reach cfg script s)
+    (ht : terminal cfg s = true) : s.mpc = .done := by
+  rcases close_never_blocks_wait hf hu hr ht with h | ⟨i, _, _, hmem, _⟩
+  · exact h
+  · exact absurd hmem (hj i)
+
+/-- **C17.12b close_returns_wait_checked** — the hypothesis of `close_returns_wait` as a decidable
+check of the script alone: the `go` events are written by the control script only, so whether a
+player is paused at the first `close` is a function of the script (`closeUnpaused`: interpret
+play / pause / play / stop over one flag per player created so far; at the first `close` every
+flag is set). -/
+theorem close_returns_wait_checked (cfg : Cfg) (script : List Cmd) (s : State)
+    (hf : cfg.fixed = true) (hc : closeUnpaused cfg script = true) (hj : ∀ i, Cmd.join i ∉ script)
+    (hr : Reach cfg script s) (ht : terminal cfg s = true) : s.mpc = .done :=
+  close_returns_wait cfg script s hf (unpaused_of_check hc) hj hr ht
+
+/-- non-vacuity: `wait=True`, a player paused and resumed before `close`; and the check rejects
+the script of known finding D10b -/
+example : (runSched ⟨true, true, 2⟩ (init [.play [101, 102, 103], .ctl .pause 0, .ctl .resume 0, .close])
+    (mkSched [0,0,0,0,0,1,0,0,0,1,1,1,0,0,0,1,1,1,0,0,0,1,1,1,0,1,1,1,0,0,0,0,0])).1.mpc = .done :=
+  close_returns_wait_checked _ _ _ rfl (by decide) (by simp) (reach_runSched _ Reach.init) (by decide)
+
+example : closeUnpaused ⟨true, true, 2⟩ [.play [101], .ctl .pause 0, .close] = false := by decide
+
+/-- **C17.13 shutdown** — once the control script has finished in a terminal state and the script
+contained a `close`: that `close` has returned, every device stream is closed, `_threads` is
+empty, the backend was terminated exactly once and NO player thread is alive. -/
+theorem shutdown {cfg : Cfg} {script : List Cmd} {s : State} (hr : Reach cfg script s)
+    (ht : terminal cfg s = true) (hd : s.mpc = .done) (hc : Cmd.close ∈ script) :
+    (∃ al n, Ev.closeOk al n ∈ s.log) ∧ closedAfter s = true ∧ noneAlive s = true ∧
+      s.terminated = 1 :=
+  after_done hr ht hd hc
+
+/-- **C17.13b shutdown_fixed** — the liveness clause in the words of the property, repaired
+`stop()`, `wait=False`: EVERY schedule of a script that calls `close` (and never `join`s), continued
+as long as some thread is enabled, reaches in at most `stepBound cfg script` steps a state where
+`close` has returned, all streams are closed, the backend is terminated exactly once and no player
+is alive — whatever was paused. -/
+theorem shutdown_fixed (cfg : Cfg) (script : List Cmd) (hf : cfg.fixed = true)
+    (hw : cfg.wait = false) (hj : ∀ i, Cmd.join i ∉ script) (hc : Cmd.close ∈ script)
+    (sched : List Tid) (hrun : (runSched cfg (init script) sched).2 = []) :
+    sched.length ≤ stepBound cfg script ∧
+    (terminal cfg (runSched cfg (init script) sched).1 = true →
+      (runSched cfg (init script) sched).1.mpc = .done ∧
+      (∃ al n, Ev.closeOk al n ∈ (runSched cfg (init script) sched).1.log) ∧
+      closedAfter (runSched cfg (init script) sched).1 = true ∧
+      noneAlive (runSched cfg (init script) sched).1 = true ∧
+      (runSched cfg (init script) sched).1.terminated = 1) := by
+  have hr : Reach cfg script (runSched cfg (init script) sched).1 := reach_runSched sched Reach.init
+  refine ⟨?_, fun ht => ?_⟩
+  · have := runSched_phi sched (Reach.init (cfg := cfg) (script := script)) hrun
+    unfold stepBound; omega
+  · have hd := close_returns_fixed cfg script _ hf hw hj hr ht
+    exact ⟨hd, after_done hr ht hd hc⟩
+
+/-- non-vacuity of `shutdown_fixed`: a maximal run with a paused player -/
+example : let s := (runSched ⟨false, true, 2⟩ (init [.play [101], .ctl .pause 0, .close])
+      (mkSched ([0,0,0,0,0,0,0,0,0,0,0,0,1,1,1,1,0,0,0] ++ [1,1,1,1,1,1,0,0,0,0,0]))).1
+    (terminal ⟨false, true, 2⟩ s = true ∧ Ev.closeOk [false] 0 ∈ s.log ∧ noneAlive s = true) := by
+  decide
+
+/-- **C17.13c shutdown_no_pause** — the same for scripts without `pause` calls: both variants of
+`stop()`, wait true ("after waiting for all audio") or false, `join` calls allowed. -/
+theorem shutdown_no_pause (cfg : Cfg) (script : List Cmd) (hn : NoPause script)
+    (hc : Cmd.close ∈ script) (sched : List Tid)
+    (hrun : (runSched cfg (init script) sched).2 = []) :
+    sched.length ≤ stepBound cfg script ∧
+    (terminal cfg (runSched cfg (init script) sched).1 = true →
+      allDone (runSched cfg (init script) sched).1 = true ∧
+      (∃ al n, Ev.closeOk al n ∈ (runSched cfg (init script) sched).1.log) ∧
+      closedAfter (runSched cfg (init script) sched).1 = true ∧
+      (runSched cfg (init script) sched).1.terminated = 1) := by
+  have hr : Reach cfg script (runSched cfg (init script) sched).1 := reach_runSched sched Reach.init
+  refine ⟨?_, fun ht => ?_⟩
+  · have := runSched_phi sched (Reach.init (cfg := cfg) (script := script)) hrun
+    unfold stepBound; omega
+  · have ha := close_returns_no_pause cfg script _ hn hr ht
+    have hd : (runSched cfg (init script) sched).1.mpc = .done := by
+      unfold allDone at ha
+      simp only [Bool.and_eq_true, beq_iff_eq] at ha
+      exact ha.1
+    obtain ⟨h1, h2, _, h4⟩ := after_done hr ht hd hc
+    exact ⟨ha, h1, h2, h4⟩
+
+/-- non-vacuity of `shutdown_no_pause`: its hypotheses hold on a maximal run of two players
+(`wait=True`, code as it was, `stop` of one and `join` of the other) -/
+example : closedAfter (runSched ⟨true, false, 1⟩
+      (init [.play [101, 102], .play [201], .ctl .stop 0, .join 1, .close])
+      (mkSched [0,0,0,0,0,1,0,0,0,1,1,1,0,0,1,2,2,2,0,0,0,2,2,2,0,1,1,2,2,1,0,0,1,1,0,0,0,0])).1 = true :=
+  ((shutdown_no_pause _ _ (by intro i h; simp at h) (by simp) _ (by decide)).2 (by decide)).2.2.1
+
+/-- **C17.13d shutdown_wait** — and for `wait=True` (or false) with the repaired `stop()`, when
+no player is paused at the time `close` is called. -/
+theorem shutdown_wait (cfg : Cfg) (script : List Cmd) (hf : cfg.fixed = true)
+    (hu : UnpausedAtClose cfg script) (hj : ∀ i, Cmd.join i ∉ script) (hc : Cmd.close ∈ script)
+    (sched : List Tid) (hrun : (runSched cfg (init script) sched).2 = []) :
+    sched.length ≤ stepBound cfg script ∧
+    (terminal cfg (runSched cfg (init script) sched).1 = true →
+      (runSched cfg (init script) sched).1.mpc = .done ∧
+      (∃ al n, Ev.closeOk al n ∈ (runSched cfg (init script) sched).1.log) ∧
+      closedAfter (runSched cfg (init script) sched).1 = true ∧
+      noneAlive (runSched cfg (init script) sched).1 = true ∧
+      (runSched cfg (init script) sched).1.terminated = 1) := by
+  have hr : Reach cfg script (runSched cfg (init script) sched).1 := reach_runSched sched Reach.init
+  refine ⟨?_, fun ht => ?_⟩
+  · have := runSched_phi sched (Reach.init (cfg := cfg) (script := script)) hrun
+    unfold stepBound; omega
+  · have hd := close_returns_wait cfg script _ hf hu hj hr ht
+    exact ⟨hd, after_done hr ht hd hc⟩
+
+/-- … with the hypothesis as the decidable check of the script -/
+theorem shutdown_wait_checked (cfg : Cfg) (script : List Cmd) (hf : cfg.fixed = true)
+    (hu : closeUnpaused cfg script = true) (hj : ∀ i, Cmd.join i ∉ script) (hc : Cmd.close ∈ script)
+    (sched : List Tid) (hrun : (runSched cfg (init script) sched).2 = []) :
+    sched.length ≤ stepBound cfg script ∧
+    (terminal cfg (runSched cfg (init script) sched).1 = true →
+      (runSched cfg (init script) sched).1.mpc = .done ∧
+      (∃ al n, Ev.closeOk al n ∈ (runSched cfg (init script) sched).1.log) ∧
+      closedAfter (runSched cfg (init script) sched).1 = true ∧
+      noneAlive (runSched cfg (init script) sched).1 = true ∧
+      (runSched cfg (init script) sched).1.terminated = 1) :=
+  shutdown_wait cfg script hf (unpaused_of_check hu) hj hc sched hrun
+
+/-- non-vacuity of `shutdown_wait_checked` (`wait=True`, pause and resume before `close`) -/
+example : let s := (runSched ⟨true, true, 2⟩
+      (init [.play [101, 102, 103], .ctl .pause 0, .ctl .resume 0, .close])
+      (mkSched [0,0,0,0,0,1,0,0,0,1,1,1,0,0,0,1,1,1,0,0,0,1,1,1,0,1,1,1,0,0,0,0,0])).1
+    (terminal ⟨true, true, 2⟩ s = true ∧ Ev.closeOk [false] 0 ∈ s.log ∧ noneAlive s = true ∧
+      (s.players.map (·.written)) = [[[101, 102], [103, 0]]]) := by
+  decide
+
+/-- **C17.14 wait_close_delivers_all** — "after waiting for all audio when wait is true": with
+`wait=True` `close` never stops a player, so if the script itself never calls `stop()`, then once
+a `close` has returned EVERY device stream has received its whole chunk sequence (the audio
+followed by the zero padding, `chunks_are_padded_audio`) — for every schedule, both variants of
+`stop()`. -/
+theorem wait_close_delivers_all {cfg : Cfg} {script : List Cmd} {s : State} (hw : cfg.wait = true)
+    (hns : ∀ i, Cmd.ctl .stop i ∉ script) (hr : Reach cfg script s)
+    (al : List Bool) (n : Nat) (hc : Ev.closeOk al n ∈ s.log)
+    (k : Nat) (p : Player) (hp : s.players[k]? = some p) :
+    p.written = chunksOf cfg.cs p.audio := by
+  have hca := closed_after_close hr al n hc
+  have hex : exiting p = true := by
+    unfold closedAfter at hca
+    simp only [Bool.and_eq_true, List.all_eq_true] at hca
+    exact (hca.2 p (List.mem_of_getElem? hp)).2
+  have hal : afterLoop p.pc = true := by
+    revert hex; unfold exiting; cases p.pc <;> simp [afterLoop]
+  exact (delivered_prefix hr k p hp).2 hal ((hn_reach hw hns hr).noHalt k p hp)
+
+/-- non-vacuity: `wait=True`, pause and resume, three samples in chunks of two -/
+example : let s := (runSched ⟨true, true, 2⟩
+      (init [.play [101, 102, 103], .ctl .pause 0, .ctl .resume 0, .close])
+      (mkSched [0,0,0,0,0,1,0,0,0,1,1,1,0,0,0,1,1,1,0,0,0,1,1,1,0,1,1,1,0,0,0,0,0])).1
+    (Ev.closeOk [false] 0 ∈ s.log ∧ s.players.map (·.written) = [[[101, 102], [103, 0]]]) := by
+  decide
 
 /-! ### the deadlock of the code as it is (D10) -/
-
-def mkSched (l : List Nat) : List Tid := l.map fun n => if n = 0 then Tid.main else Tid.player (n - 1)
 
 /-- `close()` is blocked for ever: the control script is inside `close` (at `thread.join()`), the
 player is blocked in `go.wait()`, nobody can move -/
@@ -222,6 +505,13 @@ theorem deadlock_pause_close :
 theorem deadlock_pause_close_wait :
     StuckInClose ⟨true, false, 2⟩
       (runSched ⟨true, false, 2⟩ (init [.play [101], .ctl .pause 0, .close])
+        (mkSched [0,0,0,0,0,0,0,0,0,0,0,0,1,1,1,1])).1 := by decide
+
+/-- … and the repaired `stop()` does not change that (`wait=True` never calls `stop()`): known
+finding D10b stays.  `close_returns_wait` states the exact hypothesis this script violates. -/
+theorem deadlock_pause_close_wait_fixed :
+    StuckInClose ⟨true, true, 2⟩
+      (runSched ⟨true, true, 2⟩ (init [.play [101], .ctl .pause 0, .close])
         (mkSched [0,0,0,0,0,0,0,0,0,0,0,0,1,1,1,1])).1 := by decide
 
 /-- **C17.6b** the player need not be paused when `close` starts: `pause ; play ; close` deadlocks
